@@ -242,4 +242,50 @@ def slices (k : Kind) (D : Dims) (valid : Case → Bool) : List (List Case) :=
 /-- the pooled valid cases (`-x no`) -/
 def pooled (D : Dims) (valid : Case → Bool) : List Case := D.allCases.filter valid
 
+/-! ### user subsets of the initialisation times: `-t`, `-d`, `-tod` (`Data.__init__`, data.py:160-199)
+
+`times=` is merged into `_get_common_indices` (intersection with the inputs' times); `dates=` and
+`tods=` then filter `self.times`; `_timesI` and the axis-value caches (`axis_cache`,
+`axis_cache_unique`) are rebuilt from the surviving times.  So the dataset that is sliced is the
+dataset whose time dimension is `times.filter keep`. -/
+
+structure TimeSubset where
+  /-- `times=` (`-t`): unix times -/
+  times : Option (List Int) := none
+  /-- `dates=` (`-d`): YYYYMMDD -/
+  dates : Option (List Nat) := none
+  /-- `tods=` (`-tod`): hours of the day (the driver casts them to int) -/
+  tods : Option (List Int) := none
+  deriving Repr, Inhabited
+
+/-- `int(t // 86400)*86400 in [date_to_unixtime(d) for d in dates]` (`//` is floor division, as is
+`/` on `Int` with a positive divisor) -/
+def keepDate (ds : List Nat) (t : Int) : Bool :=
+  (ds.map dateToUnixtime).contains (t / 86400 * 86400)
+
+/-- `int(t % 86400)/3600 in tods` (a real-valued comparison: only `h:00:00` equals hour `h`) -/
+def keepTod (hs : List Int) (t : Int) : Bool :=
+  (hs.map fun (h : Int) => (h : Rat)).contains (timeOfDay t)
+
+/-- does initialisation time `t` survive the user's subset? -/
+def TimeSubset.keep (s : TimeSubset) (t : Int) : Bool :=
+  (match s.times with | none => true | some ts => ts.contains t) &&
+  (match s.dates with | none => true | some ds => keepDate ds t) &&
+  (match s.tods with | none => true | some hs => keepTod hs t)
+
+/-- the verified dimensions after the subset: `self.times = [t for t in self.times if keep t]` -/
+def Dims.restrict (D : Dims) (keep : Int → Bool) : Dims :=
+  ⟨D.times.filter keep, D.leadtimes, D.locs⟩
+
+/-- positions (in the unrestricted time dimension) of the surviving times — the recomputed
+`_timesI` -/
+def keptIdx (keep : Int → Bool) (times : List Int) : List Nat :=
+  (List.range times.length).filter fun i => (times[i]?).any keep
+
+/-- a case written by its coordinates: (initialisation time, lead-time index, location index).
+Subsetting renumbers the time indices, the initialisation time itself identifies the case. -/
+abbrev TCase := Option Int × Nat × Nat
+
+def Dims.tcase (D : Dims) (c : Case) : TCase := (D.times[c.1]?, c.2.1, c.2.2)
+
 end VerifModel.Axis
